@@ -61,3 +61,30 @@ func TestGovcReplay(t *testing.T) {
 		}
 	}
 }
+
+// Lease-time scenario (C19/C02): a lease time that option 51 (unsigned 32-bit seconds) cannot carry
+// must be rejected at start-up; an accepted one is what every reply carries.
+func TestGovcReplayLeaseTime(t *testing.T) {
+	for _, arg := range []string{"1h", "4294967295s", "4294967296s", "-1h"} {
+		db := filepath.Join(t.TempDir(), "leases.sqlite3")
+		h, err := setupRange(db, "10.0.0.10", "10.0.0.13", arg)
+		if err != nil {
+			t.Logf("lease time %s rejected: %v", arg, err)
+			continue
+		}
+		d, _ := time.ParseDuration(arg)
+		req, _ := dhcpv4.NewDiscovery(net.HardwareAddr{2, 0, 0, 0, 9, 1})
+		resp, _ := dhcpv4.NewReplyFromRequest(req)
+		out, _ := h(req, resp)
+		if out == nil {
+			t.Fatalf("GOVC-PRECONDITION: no reply")
+		}
+		back, err := dhcpv4.FromBytes(out.ToBytes())
+		if err != nil {
+			t.Fatalf("GOVC-REPRODUCED: lease time %s accepted, reply does not parse: %v", arg, err)
+		}
+		if got := back.IPAddressLeaseTime(0); got != d.Round(time.Second) {
+			t.Fatalf("GOVC-REPRODUCED: lease time %s is accepted at start-up, but the reply promises %v: the configured duration cannot be honoured on the wire", arg, got)
+		}
+	}
+}
